@@ -184,8 +184,10 @@ func symmetric(c capCfg) bool {
 		}
 		n6 := 0
 		for s := range have {
-			if !netip.MustParsePrefix(s).Addr().Is4() {
-				n6++
+			if a := netip.MustParsePrefix(s).Addr(); !a.Is4() {
+				if !a.IsLoopback() { // ::1/128 has no IPv4 partner (like the IPv4 loopback CIDRs)
+					n6++
+				}
 				continue
 			}
 			if tw := twinOf[s]; tw != "" && !have[tw] {
@@ -328,6 +330,12 @@ func flows(c capCfg, thorough bool, emit func(f flow)) {
 	if thorough {
 		outPorts = portsAround(base, c.OutInc, c.OutExc, c.InInc, c.InExc)
 	}
+	// quick tier: UDP only at the ports the UDP rules can tell apart (DNS, one generic port, the excluded
+	// outbound ports and their neighbours); thorough: the full port alphabet for both protocols
+	udpOutPorts := outPorts
+	if !thorough {
+		udpOutPorts = portsAround([]int{53, 80}, c.OutExc)
+	}
 	ifs := append([]string{"eth0"}, splitList(c.ExclIf)...)
 	marks := []uint32{0}
 	if c.Mode == "TPROXY" {
@@ -344,8 +352,12 @@ func flows(c capCfg, thorough bool, emit func(f flow)) {
 	}
 	for _, o := range owners(c) {
 		for _, proto := range []string{"tcp", "udp"} {
+			ports := outPorts
+			if proto == "udp" {
+				ports = udpOutPorts
+			}
 			for _, d := range dsts {
-				for _, port := range outPorts {
+				for _, port := range ports {
 					if !isLoopNet(d) {
 						for _, ifc := range ifs {
 							emit(flow{Kind: "out", Owner: o, Iface: ifc, Proto: proto, Src: "pod", Dst: d, Dport: port, Ct: "NEW"})
@@ -393,12 +405,39 @@ func withTwins(list string) string {
 		return list
 	}
 	out := splitList(list)
+	have := map[string]bool{}
+	for _, s := range out {
+		have[s] = true
+	}
 	for _, s := range splitList(list) {
-		if tw := twinOf[s]; tw != "" {
+		if tw := twinOf[s]; tw != "" && !have[tw] {
 			out = append(out, tw)
 		}
 	}
 	return strings.Join(out, ",")
+}
+
+// reversedPerFamily returns the list with the CIDRs of each family in reverse order, and whether that
+// differs from the order given.
+func reversedPerFamily(list string) (string, bool) {
+	if list == "*" {
+		return list, false
+	}
+	var v4, v6 []string
+	for _, s := range splitList(list) {
+		if netip.MustParsePrefix(s).Addr().Is4() {
+			v4 = append([]string{s}, v4...)
+		} else {
+			v6 = append([]string{s}, v6...)
+		}
+	}
+	changed := false
+	for _, l := range [][]string{v4, v6} {
+		if len(l) > 1 {
+			changed = true
+		}
+	}
+	return strings.Join(append(v4, v6...), ","), changed
 }
 
 func pair(v string) (string, string) {
@@ -410,8 +449,10 @@ func pair(v string) (string, string) {
 // is the shipped default. v6 is applied last (it rewrites the CIDR lists).
 func dims(thorough bool) []dimension {
 	d := []dimension{
-		{"include", []string{"*", "", "10.1.0.0/16", "10.1.0.0/16,10.2.0.0/24", "127.1.2.3/32,10.1.0.0/16"},
-			func(c *capCfg, v string) { c.Include = v }, 0},
+		// loopback CIDRs are listed both before and after a non-loopback CIDR of the same family
+		{"include", []string{"*", "", "10.1.0.0/16", "10.1.0.0/16,10.2.0.0/24", "127.1.2.3/32,10.1.0.0/16", "10.1.0.0/16,127.1.2.3/32",
+			"::1/128,fd00:1::/32,10.1.0.0/16", "10.1.0.0/16,fd00:1::/32,::1/128"},
+			func(c *capCfg, v string) { c.Include = v }, 6},
 		{"exclude", []string{"", "10.1.5.0/24", "10.0.0.0/8", "10.1.5.0/24,10.2.0.64/26", "192.168.0.0/16", "10.1.7.7/32"},
 			func(c *capCfg, v string) { c.Exclude = v }, 5},
 		{"outports", []string{"|", "|80,5000", "5000|", "5000,6000|80,5000", "|5001", "5000|5001"},
@@ -421,7 +462,7 @@ func dims(thorough bool) []dimension {
 		{"uidgid", []string{"1337|1337", "1337|2000", "3,4|1,2", "0|1337", "1337|", "|1337"},
 			func(c *capCfg, v string) { c.UID, c.GID = pair(v) }, 4},
 		{"dns", []string{"off", "servers", "v4only", "all", "noservers"},
-			func(c *capCfg, v string) { c.DNS = v }, 0},
+			func(c *capCfg, v string) { c.DNS = v }, 4},
 		{"ownergroups", []string{"*|", "*|888,889", "202,203|", "*|888", "|"},
 			func(c *capCfg, v string) { c.OGInc, c.OGExc = pair(v) }, 3},
 		{"mode", []string{"REDIRECT", "TPROXY"},
